@@ -104,6 +104,65 @@ Proof.
   move=> Hk; rewrite (hist_step_is_sstep _ Hk); case: (sstep Ops M o) => //= -[M' a'] [<- <-].
   by exists M'; split=> //; apply: mset_at Hk.
 Qed.
+(** *** references into the object held by the caller across calls ([hrun]) *)
+Local Notation hop := (@hop T).
+Lemma hrun_snoc (h : list hop) (o : hop) (M0 : mat T) :
+  hrun Ops (h ++ [:: o]) M0 =
+  rbind (hrun Ops h M0) (fun st => rbind (hstep Ops st.1 o) (fun st' => Ok (st'.1, (st.2 ++ [:: st'.2])%list))).
+Proof. by rewrite /hrun List.fold_left_app. Qed.
+
+Lemma srun_one (M : mat T) (o : sop) : srun Ops [:: o] M = rbind (sstep Ops M o) (fun st => Ok (st.1, [:: st.2])).
+Proof. by rewrite /srun /=; case: (sstep Ops M o). Qed.
+
+Lemma hkeep_query (M : mat T) (q : sop) (r : href) : is_query q -> hkeep M q r.
+Proof. by case: q. Qed.
+Lemma filter_all A (p : A -> bool) (l : list A) : (forall x, p x) -> List.filter p l = l.
+Proof. by move=> H; elim: l => //= x l ->; rewrite H. Qed.
+
+(** a call by indices on an object into which references are held acts on the entries as [sstep] says *)
+Theorem href_step_call (M : mat T) (tb : htab) (c : sop) :
+  hstep Ops (M, tb) (HCall c) = rbind (sstep Ops M c) (fun st => Ok ((st.1, htable M tb (HCall c)), st.2)).
+Proof. by rewrite /hstep /= srun_one; case: (sstep Ops M c). Qed.
+
+(** a query answers from the current entries; entries and references stay as they are *)
+Theorem href_step_query (M : mat T) (tb : htab) (q : sop) : is_query q ->
+  hstep Ops (M, tb) (HCall q) = rbind (squery Ops M q) (fun a => Ok ((M, tb), a)).
+Proof.
+  move=> Hq; rewrite href_step_call sstep_query //=; case: (squery Ops M q) => //= a.
+  by rewrite filter_all // => x; apply: hkeep_query.
+Qed.
+
+(** whatever references are held and whatever was written through them: the answer to a query is [squery M q]
+    for the current entries M *)
+Theorem href_answer_after_history (h : list hop) (q : sop) (M0 M : mat T) (tb : htab) (outs : list sout) :
+  hrun Ops h M0 = Ok ((M, tb), outs) -> is_query q ->
+  hrun Ops (h ++ [:: HCall q]) M0 = rbind (squery Ops M q) (fun a => Ok ((M, tb), (outs ++ [:: a])%list)).
+Proof. by move=> Hh Hq; rewrite hrun_snoc Hh /= href_step_query //; case: (squery Ops M q). Qed.
+
+(** r_h[j] = v  through a held row reference to row i is  M[i][j] = v;  the references stay *)
+Theorem href_row_write (M : mat T) (tb : htab) (h i j : nat) (v : T) : hfind h tb = Some (HRow i) ->
+  hstep Ops (M, tb) (HRowSet h j v) = rbind (supdate Ops M (USet i j v)) (fun M' => Ok ((M', tb), @ONone T)).
+Proof. by move=> Hf; rewrite /hstep /= Hf /= srun_one /sstep /=; case: (PeanoNat.Nat.leb (mrows M) i) => //; case: (PeanoNat.Nat.leb (mcols M) j). Qed.
+(** e_h = v  through a held entry reference to (i, j) is  M[i][j] = v *)
+Theorem href_entry_write (M : mat T) (tb : htab) (h i j : nat) (v : T) : hfind h tb = Some (HElt i j) ->
+  hstep Ops (M, tb) (HEltSet h v) = rbind (supdate Ops M (USet i j v)) (fun M' => Ok ((M', tb), @ONone T)).
+Proof. by move=> Hf; rewrite /hstep /= Hf /= srun_one /sstep /=; case: (PeanoNat.Nat.leb (mrows M) i) => //; case: (PeanoNat.Nat.leb (mcols M) j). Qed.
+(** std::swap(r_h1, r_h2)  through held references to rows i and j is  std::swap(M[i], M[j]) *)
+Theorem href_row_swap (M : mat T) (tb : htab) (h1 h2 i j : nat) :
+  hfind h1 tb = Some (HRow i) -> hfind h2 tb = Some (HRow j) ->
+  hstep Ops (M, tb) (HRowSwap h1 h2) =
+  rbind (supdate Ops M (USwap i j)) (fun M' => Ok ((M', List.filter (fun hr => is_hrow hr.2) tb), @ONone T)).
+Proof. by move=> H1 H2; rewrite /hstep /= H1 H2 /= srun_one /sstep /=; case: (_ || _). Qed.
+
+(** a history without references is the history [srun] *)
+Theorem href_plain_calls (ops : list sop) (M0 : mat T) :
+  hrun Ops (List.map (@HCall T) ops) M0 = rbind (srun Ops ops M0) (fun st => Ok ((st.1, [::]), st.2)).
+Proof.
+  elim/List.rev_ind: ops => [|o ops IH] //.
+  rewrite List.map_app /= hrun_snoc srun_snoc IH.
+  case: (srun Ops ops M0) => [[M outs]| | |] //=.
+  by rewrite href_step_call; case: (sstep Ops M o) => [[M' a]| | |].
+Qed.
 End AnyOps.
 
 Import GRing.Theory.
